@@ -165,9 +165,20 @@ class extract_visitor(NodeVisitor):
                 iname = name
                 self.top._imports.append(a.name)
 
-            declared_at = self.top.find_id_loc(name, start)
+            declared_at = self.alias_loc(a, name, start)
             self.flow.add_name(ImportedName(name, loc, declared_at, iname, None,
                                             qualified=qualified))
+
+    def alias_loc(self, alias, name, start):
+        # type: (ast.alias, str, tuple[int, int]) -> tuple[int, int]
+        # position of the identifier an import alias binds; the alias node has
+        # its own position since Python 3.10, a text search is the fallback
+        end = getattr(alias, 'end_col_offset', None)
+        if end is None:
+            return self.top.find_id_loc(name, start)
+        if alias.asname:
+            return alias.end_lineno, end - len(alias.asname)  # type: ignore[attr-defined]
+        return alias.lineno, alias.col_offset  # type: ignore[attr-defined]
 
     def visit_ImportFrom(self, node):
         # type: (ast.ImportFrom) -> None
@@ -175,7 +186,7 @@ class extract_visitor(NodeVisitor):
         start = np(node)
         for a in node.names:
             name = a.asname or a.name
-            declared_at = self.top.find_id_loc(name, start)
+            declared_at = self.alias_loc(a, name, start)
             module = '.' * node.level + (node.module or '')
             if name == '*':
                 self.top._star_imports.append((loc, declared_at, module, self.flow))
